@@ -12,7 +12,7 @@ CHECKS = {
          "Complete-domain equality: TLC checks the round-trip/bijection properties of the figure-3 position table on all 16384 pairs and 65536 values, and a TLA+ trace specification compares every entry of the real code's tables with that reference. Exhaustive, so the property is decided for the whole domain.",
          "Trusted: the transcription of figure 3 into StunType.Layout, TLC, the Go harness that dumps the tables (records only)."),
  "C13": (True, "DESIGN.md §4 C13",
-         "TLC exhaustive state graph of the Agent specification; every transition replayed on the real Agent (transition cover) and the recorded calls/results/events validated by a TLA+ trace specification; seeded random long sequences validated the same way",
+         "TLC exhaustive state graph of the Agent specification; every transition replayed on the real Agent (transition cover) and the recorded calls/results/events validated by a TLA+ trace specification; seeded random long and mass-expiry sequences validated the same way; the accounting invariant lifted to unbounded histories with Apalache (inductive step) and proved with TLAPS for any set of ids",
          "The Agent module is the property. TLC enumerates every reachable state and transition for 3 (quick) / 4 (thorough) ids, 4/5 time points and 2 handlers and checks exactly-one-terminal-event, silence after Close and stability on the design; each transition is then executed on a fresh real Agent and the recorded result and event multiset must be the model's (three monotone embeddings of the abstract time points, incl. extreme time values).",
          "Trusted: AgentCore as the reading of the property text; TLC; the recording harness. Histories longer than the bound are covered by random sampling only."),
  "C02": (True, "DESIGN.md §4 C02",
